@@ -116,11 +116,36 @@ impl BorrowMut<str> for Positioned<String> {
     }
 }
 
+/// Line and column of the byte offset `offset` of `input`: a line feed, a carriage return
+/// followed by a line feed, and a lone carriage return each end a line; columns count Unicode
+/// scalar values.
+pub(crate) fn pos_at(input: &str, offset: usize) -> Pos {
+    let mut pos = Pos { line: 1, column: 1 };
+    let mut prev_cr = false;
+    for ch in input[..offset.min(input.len())].chars() {
+        match ch {
+            '\r' => {
+                pos.line += 1;
+                pos.column = 1;
+            }
+            '\n' if prev_cr => {}
+            '\n' => {
+                pos.line += 1;
+                pos.column = 1;
+            }
+            _ => pos.column += 1,
+        }
+        prev_cr = ch == '\r';
+    }
+    pos
+}
+
 pub(crate) struct PositionCalculator<'a> {
     input: &'a str,
     pos: usize,
     line: usize,
     column: usize,
+    prev_cr: bool,
 }
 
 impl<'a> PositionCalculator<'a> {
@@ -130,6 +155,7 @@ impl<'a> PositionCalculator<'a> {
             pos: 0,
             line: 1,
             column: 1,
+            prev_cr: false,
         }
     }
 
@@ -141,14 +167,22 @@ impl<'a> PositionCalculator<'a> {
         for ch in chars_to_read {
             match ch {
                 '\r' => {
-                    self.column = 1;
-                }
-                '\n' => {
+                    // a carriage return ends a line, whether or not a line feed follows
                     self.line += 1;
                     self.column = 1;
+                    self.prev_cr = true;
+                }
+                '\n' => {
+                    // the line feed of a CR LF pair belongs to the line break already counted
+                    if !self.prev_cr {
+                        self.line += 1;
+                        self.column = 1;
+                    }
+                    self.prev_cr = false;
                 }
                 _ => {
                     self.column += 1;
+                    self.prev_cr = false;
                 }
             }
         }
